@@ -20,7 +20,7 @@ def run(tier):
         plan = [dict(variant="sim", runs=30000, label="table/sim", args=["--mode", "table"], timeout=200),
                 dict(variant="sim", runs=4000, label="api/sim", args=["--mode", "api"], timeout=200),
                 dict(variant="simtsan", runs=6000, label="table/tsan", args=["--mode", "table"], timeout=200),
-                dict(variant="simtsan", runs=800, label="api/tsan", args=["--mode", "api"], timeout=200)]
+                dict(variant="simtsan", runs=160, label="api/tsan", args=["--mode", "api"], timeout=200)]
     else:
         plan = [dict(variant="sim", runs=3000000, label="table/sim", args=["--mode", "table"], timeout=3000),
                 dict(variant="sim", runs=300000, label="api/sim", args=["--mode", "api"], timeout=3000),
